@@ -56,6 +56,36 @@ def ns():
 
     LOG = []
 
+    def mkns():
+        @Option.namespace
+        class LOGGING:
+            LEVEL = Option.auto(default=3, doc="level")
+            FMT = Option("FMT", "plain")
+            KEEP: int
+
+        @Option.namespace
+        class SERVICE_A:
+            LOGGING_ = LOGGING
+            NAME = "a"
+
+        @Option.namespace
+        class SERVICE_B:
+            LOGGING_ = LOGGING
+            X = Option.auto(default=0) >> inc
+        return {"LOGGING": LOGGING, "SERVICE_A": SERVICE_A, "SERVICE_B": SERVICE_B}
+
+    def NSPATHS(root):
+        """(path, thunk giving the member through the namespace, fully-qualified Option) for the namespaces built by mkns()"""
+        out = []
+        for rootname, nsobj in root.items():
+            if rootname == "LOGGING":
+                out += [("LOGGING.LEVEL", lambda n=nsobj: n.LEVEL, Option("LOGGING.LEVEL", 3)), ("LOGGING.FMT", lambda n=nsobj: n.FMT, Option("LOGGING.FMT", "plain")),
+                        ("LOGGING.KEEP", lambda n=nsobj: n.KEEP, Option("LOGGING.KEEP"))]
+            else:
+                out += [(f"{rootname}.LOGGING.LEVEL", lambda n=nsobj: n.LOGGING_.LEVEL, Option(f"{rootname}.LOGGING.LEVEL", 3)),
+                        (f"{rootname}.LOGGING.FMT", lambda n=nsobj: n.LOGGING_.FMT, Option(f"{rootname}.LOGGING.FMT", "plain"))]
+        return out
+
     def rec(name, *deps):
         """a dataset that records its execution in LOG and returns (name, *args)"""
         names = [f"a{i}" for i in range(len(deps))]
@@ -71,6 +101,7 @@ def ns():
 
 # recipes per class: python expressions over ns()
 RECIPES = {
+    "Namespace": ["mkns()"],
     "Value": ["Value(3)", "Value([1, {'a': 2}])"],
     "Apply": ["Option('A').apply(inc)", "Option('A') >> Option('FN', inc)", "Option('A', 1) >> pdiv", "Option('S.X') >> ident"],
     "Bind": ["Option('A').bind(pick)", "Option('A', 0).bind(pick)"],
@@ -114,7 +145,8 @@ KEYS = ["A", "B", "T", "X", "Y", "Z", "S", "FN", "DOM", "XS", "L"]
 def dict_universe(rnd, n):
     out = [{}, {"A": 1}, {"A": 2, "B": 3}, {"A": 1, "X": 5, "Z": 9}, {"A": 1, "T": 0, "X": 4, "Y": 6, "Z": 7},
            {"S": {"X": 1, "Y": 2}}, {"A": "{B}", "B": 2}, {"A": "{NOPE}"}, {"A": 0}, {"A": None, "Z": 1}, {"A": 3, "S": {"X": 2}, "B": 1},
-           {"A": 1, "S": 5}, {"XS": [1, 2], "B": 1}, {"KINDS": ["x", "y"], "X": 1, "Y": 2}, {"KINDS": ["y"], "Y": 2}, {"L": [7, 8]}, {"A": 1, "DOM": [1, 2]}, {"A": 3, "DOM": [1, 2]}]
+           {"A": 1, "S": 5}, {"XS": [1, 2], "B": 1}, {"LOGGING": {"LEVEL": 0, "KEEP": 2}, "SERVICE_A": {"LOGGING": {"LEVEL": 5}}, "SERVICE_B": {"LOGGING": {"LEVEL": 0}}},
+           {"SERVICE_A": {"LOGGING": {"LEVEL": 9}}, "LOGGING": {"KEEP": 1}}, {"SERVICE_B": {"LOGGING": {"FMT": ""}}}, {"KINDS": ["x", "y"], "X": 1, "Y": 2}, {"KINDS": ["y"], "Y": 2}, {"L": [7, 8]}, {"A": 1, "DOM": [1, 2]}, {"A": 3, "DOM": [1, 2]}]
     for _ in range(n):
         d = {}
         for k in rnd.sample(KEYS, rnd.randint(0, 5)):
@@ -149,6 +181,10 @@ def origin(e):
     while e.__cause__ is not None:
         e = e.__cause__
     return e
+
+
+def case_str(e):
+    return repr(getattr(e, "domain", ""))
 
 
 def _overlap(a, b):
@@ -280,6 +316,35 @@ def check_law(law, expr, o, fresh):
             shown = got if got[0] == "ok" else ("err", repr(got[1])[:120])
             return f"evaluate gives {shown!r}; the eager computation gives {want!r}"
         return None
+    if law == "C04":
+        from .reference import ref_outcome
+        n = type(e).__name__
+        if n == "Option":
+            got, want = outcome(lambda: e(copy.deepcopy(o))), ref_outcome(fresh(), o)
+            if want[0] != "unknown" and (got[0] != want[0] or (got[0] == "ok" and not same(got, want))):
+                return f"Option gives {got if got[0] == 'ok' else ('err', repr(got[1])[:100])!r}; independent lookup gives {want!r}"
+            v = 7
+            snap = copy.deepcopy(o)
+            r = outcome(lambda: e.set(o, v))
+            if r[0] == "ok":
+                if o != snap:
+                    return "Option.set modified its input dictionary"
+                back = outcome(lambda: fresh()(r[1]))
+                from labrea._missing import MISSING as _M
+                if back != ("ok", v) and e.domain is _M and not any(part.isdigit() for part in e.key.split(".")):   # F27: list-indexed keys
+                    return f"after Option.set(o, {v}) the option evaluates to {back!r}"
+            return None
+        if n == "Namespace":
+            from labrea import Option as Opt
+            # every member, reached through every mount point, behaves like the fully qualified Option
+            for path, member, fq in ns()["NSPATHS"](e):
+                for _ in range(2):
+                    got = outcome(lambda: member()(copy.deepcopy(o)))
+                    want = outcome(lambda: fq(copy.deepcopy(o)))
+                    if not same(got, want) or (got[0] == "err") != (want[0] == "err"):
+                        return f"namespace member {path} gives {got!r}; the fully qualified Option gives {want!r}"
+            return None
+        return None
     if law == "C06":
         from .reference import ref_outcome
         log = ns()["LOG"]
@@ -349,7 +414,7 @@ def check_law(law, expr, o, fresh):
 
 
 LAW_OF_GROUP = {"L1": ["L1"], "L2": ["L2"], "L3": ["L3"], "L4a": ["L4a"], "L4t": ["L4t"], "L5": ["L5"], "L5b": ["L5b"], "L5d": ["L5d"],
-                "L6": ["L6"], "L6v": ["L6v"], "C05": ["C05"], "C08": ["C08"], "C06": ["C06"], "C06c": ["C06"], "with_options": ["C08"], "with_default_options": ["C08"], "tower": ["C08", "C05"]}
+                "L6": ["L6"], "L6v": ["L6v"], "C05": ["C05"], "C08": ["C08"], "C04": ["C04"], "C06": ["C06"], "C06c": ["C06"], "with_options": ["C08"], "with_default_options": ["C08"], "tower": ["C08", "C05"]}
 
 
 def build(recipe):
@@ -394,7 +459,7 @@ def _shadowed(o, d, prefix=""):
 
 def known_region(recipe, o, law):
     """recorded findings (known_findings.json): inputs inside their regions are not reported again"""
-    if law in ("C05", "C08", "C06"):
+    if law in ("C05", "C08", "C06", "C04"):
         return False
     try:
         root = build(recipe)
